@@ -938,6 +938,45 @@ impl<'r> VGen<'r> {
         format!("{} f1({})\n{{\n    return {};\n}}\n", self.tname(&ret), decl.join(", "), e)
     }
 
+    /// `T f(T p, …) { p <op>= E; return p; }` / `p.zx <op>= E` with `p` a vector parameter (statement-level assignment of the
+    /// Lean vector layer)
+    pub fn assignment_function(&mut self) -> String {
+        let t = self.kind(true);
+        let n = 2 + self.rng.below(3) as usize;
+        let first = G::N(t, n);
+        let pn = self.fresh("p");
+        let mut decl = vec![self.decl(&first, &pn)];
+        let mut scope = vec![VarInfo { name: pn.clone(), ty: first.clone(), assignable: false }];
+        for _ in 0..self.rng.below(3) {
+            let g = self.numeric();
+            let name = self.fresh("p");
+            decl.push(self.decl(&g, &name));
+            scope.push(VarInfo { name, ty: g, assignable: false });
+        }
+        // the place: the whole parameter or distinct components of it
+        let (place, pk) = if self.rng.chance(1, 3) {
+            (pn.clone(), n)
+        } else {
+            let k = 1 + self.rng.below(n as u64) as usize;
+            let mut idx: Vec<usize> = (0..n).collect();
+            for i in 0..n {
+                let j = i + self.rng.below((n - i) as u64) as usize;
+                idx.swap(i, j);
+            }
+            (format!("{}.{}", pn, idx[..k].iter().map(|i| COMP[*i]).collect::<String>()), k)
+        };
+        let is_int = t == T::Int || t == T::Uint;
+        let op = if t == T::Bool || self.rng.chance(1, 3) {
+            "="
+        } else if is_int {
+            *self.rng.pick(&["+=", "-=", "*=", "/=", "%=", "<<=", ">>=", "&=", "|=", "^="])
+        } else {
+            *self.rng.pick(&["+=", "-=", "*=", "/="])
+        };
+        let rhs = self.conv(t, pk, self.opts.max_depth, &scope);
+        format!("{} f1({})\n{{\n    {} {} {};\n    return {};\n}}\n", self.tname(&first), decl.join(", "), place, op, rhs, pn)
+    }
+
     pub fn program(&mut self) -> String {
         let mut out = String::new();
         if self.opts.enums && self.rng.chance(1, 2) {
